@@ -38,6 +38,7 @@ FLAGS = [
     'reg_multi',        # two regions in the kernel
     'reg_logical',      # logical variables in the region
     'reg_temp',         # a variable used only inside the region (region-local temporary)
+    'reg_inquiry_only',  # an array may appear in the region ONLY as argument of SIZE / LBOUND / UBOUND
     'routine_use',      # the kernel imports by routine-level USE (replicated into the new routine)
     # internal procedures
     'int_host_read', 'int_host_write', 'int_host_array', 'int_host_dtype', 'int_host_param', 'int_host_dimvar',
@@ -104,6 +105,24 @@ def rename_var(e, name, new, keep=()):
     if isinstance(e, dict):
         return {k: rename_var(v, name, new, keep) for k, v in e.items()}
     return e
+
+
+INQUIRY = ('size', 'lbound', 'ubound')
+
+
+def enquired(e, out):
+    """names of the variables that appear as first argument of an inquiry intrinsic in statement / expression JSON"""
+    if isinstance(e, list):
+        if len(e) == 4 and e[0] == 'f' and e[1] in INQUIRY and e[2] and isinstance(e[2][0], list) and e[2][0][:1] == ['d']:
+            nm = e[2][0][1][0][0]
+            if nm not in out:
+                out.append(nm)
+        for x in e:
+            enquired(x, out)
+    elif isinstance(e, dict):
+        for x in e.values():
+            enquired(x, out)
+    return out
 
 
 def canonical_ref(name, v):
@@ -401,6 +420,18 @@ def build(spec):
                 b.use('reg_call')
         if lv is not None:
             stmts.append(['assign', var('yi0'), ['b', '+', var('yi0'), var(lv)]])
+        enq = [nm for nm in enquired(stmts, []) if nm in env.vars and not env.vars[nm].get('path')]
+        if enq and F('reg_inquiry_only'):
+            b.use('reg_inquiry_only')
+        for nm in ([] if F('reg_inquiry_only') else enq):
+            # an element of every enquired array is also read (a reference that loki's dataflow analysis counts as a use)
+            v = env.vars[nm]
+            elt = ['d', [[nm, [lit(d[0]) for d in v['dims']]]]]
+            tgt = 'yi0' if v['type'] == 'int' else 'yr0'
+            if v['type'] in ('int', 'real'):
+                stmts.append(['assign', var(tgt), ['b', '+', var(tgt), elt]])
+            else:
+                stmts.append(['if1', elt, ['assign', var('yi0'), ['b', '+', var('yi0'), lit(1)]]])
         env.funcs = []
         env.loopvars = saved_lv
         if hidden_zn is not None:
